@@ -166,3 +166,12 @@ pub use pastey::paste as __private_paste;
 pub use pinned::*;
 #[cfg(test)]
 pub(crate) use thread_safety_types::*;
+
+// Verification hook (H1): harness code lives outside the repository and is only compiled by the
+// model checker (`cfg(kani)`) or by native counterexample replays (`--cfg folo_verif`).
+#[cfg(any(kani, folo_verif))]
+#[doc(hidden)]
+#[allow(warnings, clippy::all, clippy::pedantic, clippy::nursery, clippy::restriction)]
+pub mod folo_verif {
+    include!(concat!(env!("FOLO_VERIF_DIR"), "/kani/infinity_pool/harness.rs"));
+}
